@@ -9,7 +9,7 @@ export W
 sh -c "$CC -o /tmp/demo_$ID.clean" >/dev/null 2>&1 && ( cd "$D"; timeout 600 /tmp/demo_$ID.clean >/tmp/demo_$ID.clean.out 2>&1 ); echo "demo on clean tree: exit $?"
 git -C "$W" apply "$D/patch.diff" || { echo "patch does not apply"; exit 2; }
 sh -c "$CC -o /tmp/demo_$ID.patched" >/dev/null 2>&1 && ( cd "$D"; timeout 600 /tmp/demo_$ID.patched >/tmp/demo_$ID.patched.out 2>&1 ); echo "demo on patched tree: exit $?"
-cd /verif
+cd "${VERIF_DIR:-/verif}"
 for c in "$@"; do
   # the evidence file of the registered check describes the UNCHANGED tree: keep it
   cp evidence/$c.json /tmp/seed_evidence_$c.json 2>/dev/null
